@@ -181,18 +181,26 @@ pub struct Exec {
     pub h: History,
     pub alts: Vec<History>,
     pub multi: Option<crate::multi::MultiOutcome>,
+    /// direct parser calls that aborted: (parser, input, panic key)
+    pub parser_panics: Vec<(String, String, String)>,
+    /// wall time of the main run (used by C15's proportional-time budget only; not part of any digest)
+    pub wall_us: u64,
 }
 
 pub fn execute(case: &Case) -> Exec {
     match case.kind.as_str() {
         "multi" => {
             let out = case.multi.as_ref().map(crate::multi::run_multi);
-            Exec { h: History::default(), alts: vec![], multi: out }
+            Exec { h: History::default(), alts: vec![], multi: out, parser_panics: vec![], wall_us: 0 }
         }
         _ => {
+            let t = std::time::Instant::now();
             let h = world::run_cli(&case.scn);
+            let wall_us = t.elapsed().as_micros() as u64;
             let alts = case.alts.iter().map(|a| world::run_cli(&a.scn)).collect();
-            Exec { h, alts, multi: None }
+            let parser_panics =
+                if case.parser_inputs.is_empty() { vec![] } else { crate::c15::direct_parsers(&case.parser_inputs) };
+            Exec { h, alts, multi: None, parser_panics, wall_us }
         }
     }
 }
@@ -246,9 +254,12 @@ pub fn judge(case: &Case, ex: &Exec) -> Result<Vec<Violation>, String> {
         ("C17", _) => oracle::check_c17(case, &ex.h, &ex.alts),
         ("C18", _) => oracle::check_c18(case, &ex.h),
         ("C19", "env") => crate::c19::judge_env(case, ex),
+        ("C15", _) => crate::c15::judge(case, ex),
         _ => vec![],
     };
-    normalise_panic_classes(&mut v, &ex.h);
+    if case.property != "C15" {
+        normalise_panic_classes(&mut v, &ex.h);
+    }
     // one violation per class
     let mut seen = BTreeSet::new();
     v.retain(|x| seen.insert(x.class.clone()));
